@@ -298,7 +298,7 @@ fn msg() -> impl Strategy<Value = Msg> {
 
 pub fn run(ctx: &mut Ctx) {
     let fs = ctx.first_shard();
-    ctx.rule = "messages over channel ids (0, broadcast, random), all nine commands, payload lengths (every value 0..=7700, 65535/65536/70000, random) with zero / 0xFF / pseudo-random contents: sender output parsed by an independent packet parser and fed to a fresh receiver. Interleavings of 2-4 channels: ALL order-preserving merges when the streams have at most 9 packets in total, generated merges otherwise (uniformly mixed ones with up to 26 packets per channel, and skewed ones in which one channel pauses inside its message while others send whole messages of up to 129 packets and a further channel starts only afterwards; a third of the generated merges run on a receiver that still holds given-up transmissions on the same channels). Non-trivial = message with at least one continuation packet, a refused over-long payload, or a merge of at least two channels; distinct by message / by (messages, order).".into();
+    ctx.rule = "messages over channel ids (0, broadcast, random), all nine commands, payload lengths (every value 0..=7700, 65535/65536/70000, random) with zero / 0xFF / pseudo-random contents: sender output parsed by an independent packet parser and fed to a fresh receiver. Sequences of 1-6 transmissions through one receiver (a third of them repeat the transmission before). Interleavings of 2-4 channels: ALL order-preserving merges when the streams have at most 9 packets in total, generated merges otherwise (uniformly mixed ones with up to 26 packets per channel, and skewed ones in which one channel pauses inside its message while others send whole messages of up to 129 packets and a further channel starts only afterwards; a third of the generated merges run on a receiver that still holds given-up transmissions on the same channels). Non-trivial = message with at least one continuation packet, a refused over-long payload, or a merge of at least two channels; distinct by message / by (messages, order).".into();
     ctx.assumptions = vec![
         "the channel id byte order is accepted as either endianness but must be the same in all packets and round-trip".into(),
         "only messages the sender accepts are constrained; refusals at or below 7609 bytes are measured (Message::new refuses exactly 7609)".into(),
@@ -374,6 +374,25 @@ pub fn run(ctx: &mut Ctx) {
         Search::Pass => {}
         Search::Fail(m, e) => ctx.violation("merges", json!(m), &e),
     }
+    // ---- sequences through one receiver; a transmission repeats the one before it in a third of the positions
+    let seq = proptest::collection::vec((msg(), 0u8..3), 1..7).prop_map(|v| {
+        let mut out: Vec<Msg> = vec![];
+        for (mut m, rep) in v {
+            m.len %= 400;
+            if rep == 0 && !out.is_empty() {
+                let prev = out[out.len() - 1].clone();
+                out.push(prev);
+            } else {
+                out.push(m);
+            }
+        }
+        out
+    });
+    let n = ctx.tier.pick(4_000u32, 1_000_000u32);
+    match search(ctx, 28, n, seq, check_sequence) {
+        Search::Pass => {}
+        Search::Fail(m, e) => ctx.violation("sequences", json!(m), &e),
+    }
     // ---- skewed interleavings: one channel pauses in the middle of its message while the others transmit long runs
     // (whole maximum-size messages), and another channel only starts once the pause has lasted
     let packets_of = |len: usize| if len <= 57 { 1 } else { 1 + (len - 57).div_ceil(59) };
@@ -410,7 +429,43 @@ pub fn run(ctx: &mut Ctx) {
     }
 }
 
+/// several transmissions one after the other through the same receiver (same or different channels, now and then the
+/// very same message again): each is delivered exactly once, on its last packet, unchanged
+pub fn check_sequence(ctx: &mut Ctx, msgs: &Vec<Msg>) -> Result<(), String> {
+    ctx.eval();
+    let mut h = ChannelHandler::default();
+    for (k, m) in msgs.iter().enumerate() {
+        let Some(packets) = send(m)? else { continue };
+        let mut delivered = 0;
+        for (i, p) in packets.iter().enumerate() {
+            match catch_unwind(AssertUnwindSafe(|| h.handle_packet(p))).map_err(|_| format!("handle_packet panicked: {}", crate::last_panic()))? {
+                Some(got) => {
+                    if i + 1 != packets.len() {
+                        return Err(format!("transmission #{k}: a message was delivered before the last packet"));
+                    }
+                    same(m, &got).map_err(|e| format!("transmission #{k}: {e}"))?;
+                    delivered += 1;
+                }
+                None if i + 1 == packets.len() => return Err(format!("transmission #{k} ({} packets, {} bytes, the same message as the one before: {}): nothing was delivered on its last packet", packets.len(), m.len, k > 0 && msgs[k - 1] == *m)),
+                None => {}
+            }
+        }
+        if delivered != 1 {
+            return Err(format!("transmission #{k} was delivered {delivered} times"));
+        }
+    }
+    if msgs.len() >= 2 {
+        ctx.nontrivial(msgs);
+    }
+    ctx.class("sequence of transmissions through one receiver");
+    Ok(())
+}
+
 pub fn replay(ctx: &mut Ctx, stage: &str, case: &Value) -> Result<(), String> {
+    if stage == "sequences" {
+        let m: Vec<Msg> = serde_json::from_value(case.clone()).map_err(|e| format!("bad case: {e}"))?;
+        return check_sequence(ctx, &m);
+    }
     if stage.starts_with("merges") {
         let m: Merge = serde_json::from_value(case.clone()).map_err(|e| format!("bad case: {e}"))?;
         check_merge(ctx, &m)
